@@ -1,7 +1,7 @@
 """C09 — tape creation is all-or-nothing and never over- or under-estimates capacity"""
 import os
 
-from framework import CaseResult, text_points
+from framework import scale, CaseResult, text_points
 from props import c01
 from props.tapecommon import CaseDir, TAPE, encoded_size, gen_content, gen_source_path, materialize, real_path_of, run_tool, model_outcome, status_class
 
@@ -45,7 +45,7 @@ def gen_case(rng):
 
 
 def gen_cases(rng, tier):
-    n = 150 if tier == "quick" else 3000
+    n = scale(tier, 150, 3000)
     cases = [gen_case(rng) for _ in range(n)]
     for size in (19808, 19809, 19810, 19811):  # one file: 21502 / 21503 / 21504 / 21505 encoded
         cases.append({"sources": [{"arg": "big.bin", "content": {"rand": size, "len": size}}], "verbose": False, "archive": "t.k7", "old": {"rand": 1, "len": 21504}})
